@@ -38,7 +38,7 @@ impl rustc_driver::Callbacks for Cb {
             if let Ok(out) = std::env::var("FACTGEN_OUT") {
                 let ctype = format!("{:?}", tcx.crate_types().first()).to_lowercase();
                 let ctype = if ctype.contains("executable") { "bin" } else { "lib" };
-                let j = ty::print::with_crate_prefix!(dump(tcx, &name));
+                let j = ty::print::with_no_visible_paths!(ty::print::with_crate_prefix!(dump(tcx, &name)));
                 let mut s = String::with_capacity(1 << 24);
                 j.write(&mut s);
                 let path = format!("{}/{}.{}.json", out, name, ctype);
